@@ -574,6 +574,16 @@ func (g *Gen) resolve(x *Exec, cc *ssa.CallCommon) *target {
 	if e, ok := v.(*ssa.Extract); ok {
 		tg.display = "dynamic " + v.Name()
 		// a function value that is one of the results of a statically known function: contract `func result <callee>`
+		// a named local holding it (e.g. the value variable of `for k, f := range m`): contract `func local <name> in <fn>`
+		for _, b := range x.fn.Blocks {
+			for _, in := range b.Instrs {
+				if d, ok := in.(*ssa.DebugRef); ok && d.X == v && !d.IsAddr {
+					if id, ok := identName(d); ok && isLocalObj(d) {
+						tg.display = "local " + id
+					}
+				}
+			}
+		}
 		if c, ok := e.Tuple.(*ssa.Call); ok {
 			if f, ok := c.Call.Value.(*ssa.Function); ok {
 				if f.Pkg != nil && inModule(f.Pkg.Pkg) {
